@@ -524,8 +524,105 @@ func runC05(r *Run) {
 		}
 
 		ruleTableKeys(r, "R05.6", v, pe)
+		ruleProbeNotCached(r, "R05.8", v, byVar)
 	}
+	// R05.7: the cache component the variants are built on equals its reference model
+	r.floor("R05.7", 12)
+	for _, m := range []string{"get", "set"} {
+		conform(r, "R05.7", "proc/comp", "Line", m, "comp_cache", nil)
+	}
+	for _, m := range []string{"ExistingLines", "Get", "GetCacheLine", "GetSubCacheLine", "EvictCacheLine", "Write", "PushLine", "PushLineWithEvictionWarning", "Lines"} {
+		conform(r, "R05.7", "proc/comp", "LRUCache", m, "comp_cache", nil)
+	}
+	conform(r, "R05.7", "proc/comp", "", "getAlignedMemoryAddress", "comp_cache", nil)
 }
+
+// ruleProbeNotCached (R05.8): the answer of a cache presence probe is used in the step
+// that asked. A closure that runs as several coroutine steps (one call per cycle) must
+// not keep the answer in a variable captured from outside: another core may install or
+// evict the line between two steps, and routing a write-back on the stale answer sends
+// the data to the wrong level.
+func ruleProbeNotCached(r *Run, rule string, v *variant, byVar map[*types.Var]*cacheInfo) {
+	info := v.info
+	w := r.W
+	// presence probes: functions of the variant returning bool (last result) that reach LRUCache.Get/GetCacheLine/GetSubCacheLine
+	isProbe := func(call *ast.CallExpr) bool {
+		fn, ok := typeutil.Callee(info, call).(*types.Func)
+		if !ok {
+			return false
+		}
+		sig := fn.Type().(*types.Signature)
+		if sig.Results().Len() == 0 || typeName(sig.Results().At(sig.Results().Len()-1).Type()) != "bool" {
+			return false
+		}
+		if sig.Recv() != nil && isCompType(sig.Recv().Type(), "LRUCache") {
+			return fn.Name() == "Get" || fn.Name() == "GetCacheLine" || fn.Name() == "GetSubCacheLine"
+		}
+		fd, _ := w.FuncDecl(fn)
+		if fd == nil || fd.Body == nil || fn.Pkg() != v.pkg.Types {
+			return false
+		}
+		return w.reaches(info, fd.Body, func(g *types.Func) bool {
+			s2 := g.Type().(*types.Signature)
+			return s2.Recv() != nil && isCompType(s2.Recv().Type(), "LRUCache") && (g.Name() == "Get" || g.Name() == "GetCacheLine" || g.Name() == "GetSubCacheLine")
+		})
+	}
+	for _, f := range v.pkg.Syntax {
+		for _, d := range f.Decls {
+			fd, ok := d.(*ast.FuncDecl)
+			if !ok || fd.Body == nil {
+				continue
+			}
+			n := 0
+			var walk func(node ast.Node, lit *ast.FuncLit)
+			walk = func(node ast.Node, lit *ast.FuncLit) {
+				ast.Inspect(node, func(m ast.Node) bool {
+					if m == nil || m == node {
+						return true
+					}
+					if l2, ok := m.(*ast.FuncLit); ok {
+						walk(l2.Body, l2)
+						return false
+					}
+					as, ok := m.(*ast.AssignStmt)
+					if !ok || lit == nil || as.Tok != token.ASSIGN {
+						return true
+					}
+					for i, rhs := range as.Rhs {
+						call, ok := ast.Unparen(rhs).(*ast.CallExpr)
+						if !ok || !isProbe(call) {
+							continue
+						}
+						// the variable that receives the bool answer
+						var target ast.Expr
+						if len(as.Rhs) == 1 && len(as.Lhs) > 1 {
+							target = as.Lhs[len(as.Lhs)-1]
+						} else if i < len(as.Lhs) {
+							target = as.Lhs[i]
+						}
+						id, ok := target.(*ast.Ident)
+						if !ok || id.Name == "_" {
+							continue
+						}
+						obj := info.Uses[id]
+						if obj == nil {
+							continue
+						}
+						// declared outside this closure => it survives the step
+						if obj.Pos() < lit.Pos() || obj.Pos() > lit.End() {
+							n++
+							r.bad(rule, fmt.Sprintf("%s.%s:cached-probe#%d", v.rel, declName(fd), n), as.Pos(), "the answer of the presence probe %s is kept in %s, a variable that outlives the coroutine step: later steps route on a stale answer", types.ExprString(call.Fun), id.Name)
+						}
+					}
+					return true
+				})
+			}
+			walk(fd.Body, nil)
+		}
+	}
+	_ = byVar
+}
+
 
 func stripConv(info *types.Info, e ast.Expr) ast.Expr {
 	for {
